@@ -109,6 +109,12 @@ pub enum UskOp {
     Truncate { len: usize },
     /// Split the chain of right i after its k-th secret into two rights with the same name.
     SplitChain { i: usize, k: usize },
+    /// Add a right that announces zero secrets (name taken from another user's key, or raw).
+    AddEmptyRight { other_user: usize, j: usize, raw: Vec<u8> },
+    /// Move the oldest secret of right `from` to the end of the chain of right `to`.
+    MoveSecretToEnd { from: usize, to: usize },
+    /// Exchange secret k of right i with secret l of right j.
+    SwapSecretsAcross { i: usize, k: usize, j: usize, l: usize },
     /// Move the last `k` bytes of right i's name to the front of ... (shift name/secret border)
     ShiftNameBorder { i: usize, k: usize },
 }
